@@ -740,10 +740,15 @@ class PureScheduler:                                    # pylint: disable=r0902
                     task,
                     "TIDYING {} {} {}"
                     .format(job.repr_id(), job.repr_short(), job.repr_main()))
-        # don't bother to set a timeout,
-        # this is expected to be immediate
-        # since all tasks are canceled
-        await asyncio.gather(*exception_tasks, return_exceptions=True)
+        # these tasks are done already: retrieving their exception is what
+        # marks it as consumed; it is essential to NOT suspend here - with
+        # python <= 3.11 gather() on finished tasks yields to the event loop,
+        # and jobs completing in the meanwhile would be seen as done by the
+        # rest of this iteration of co_run()'s main loop before asyncio.wait()
+        # has reported them (jobs started twice, or started although one of
+        # their requirements has just failed critically)
+        for task in exception_tasks:
+            task.exception()
 
     @staticmethod
     def _show_task_stack(task, msg='STACK', margin=4, limit=None):
